@@ -16,7 +16,7 @@ TARGETS = ['C19/Props.vo', 'C19/Corr.vo']
 MODEL_TARGETS = ['C19/Corr.vo']
 PROPS_FILE = 'C19/Props.v'
 PROPS_MODULE = 'QV.C19.Props'
-CORR_IMPORTS = ['QV.C19.Model', 'QV.C19.Spec', 'QV.C19.Corr']
+CORR_IMPORTS = ['QV.C19.Model', 'QV.C19.Spec', 'QV.C19.Driver', 'QV.C19.Corr']
 CHECK_CORR = 'check_corr'
 CHECK_SPEC = 'check_spec'
 SHARD = 400
@@ -38,8 +38,9 @@ TRUSTED = [
 ASSUMPTIONS = [
     'the three memory arrays have equal length and the two new-segment arrays have equal length (maintained by the driver; '
     'the model returns BadInput otherwise)',
-    'no integer wrap-around in numpy: int64 inputs, or the driver\'s uint32 capacities with total_capacity >= sum of the '
-    'capacities (total_capacity - uint64 sum would wrap otherwise)',
+    'sizes stay far below 2^32 / 2^63 (numpy sums of uint32 / int64 arrays do not wrap); the one wrap-around that was '
+    'reachable with realistic sizes (total_capacity - np.sum(uint32 capacities) < 0) was repaired in /repo 27dd4b7 and is '
+    'exercised by the dtype:drv stream',
 ]
 
 HASHES = [1, 2, 3]
@@ -132,6 +133,7 @@ def gen_cases(rng, tier, ctx):
     cases.append(_mk([1, 2], [1, 0], [192, 192], 384, [1, 1], [192, 192]))           # duplicates of a known segment
     cases.append(_mk([1, 2, 3], [1, 0, 1], [192, 384, 192], 768 + 208, [7, 7], [384, 192]))   # duplicate unknown
     cases.append(_mk([1, 2, 3, 4], [1, 0, 0, 1], [192, 208, 384, 192], 2000, [8], [300]))  # index mix-up: misses slot 2
+    cases.append(_mk([1], [1], [192], 100, [7], [192], dtype='drv'))   # unsigned wrap-around of total - sum(capacities)
     # ---- small scope
     # (slots, new segments, number of layouts drawn from that scope; None = all of them)
     if thorough:
@@ -167,9 +169,47 @@ def gen_cases(rng, tier, ctx):
     # ---- the driver's dtypes (uint32 capacities, uint32 / int64 reference counts), only where nothing can wrap
     for _ in range(n_drv):
         h, r, c, t, nh, nl = _rand_place(rng, 8, 5, hp, cp, lp[:6], [0, 0, 0, 1, 1, 2, 3])
-        t = max(t, sum(c)) + rng.choice([0, 0, 16, 208, 400])
+        if rng.random() < 0.25:
+            # total capacity BELOW what is already reserved: `total_capacity - np.sum(uint32 array)` must not wrap
+            t = rng.choice([0, 100, sum(c) - 1, sum(c) - 192, sum(x for x, y in zip(c, r) if y > 0) - 16])
+            t = max(t, 0)
         cases.append(_mk(h, r, c, t, nh, nl, dtype=rng.choice(['drv', 'drv64'])))
+    # ---- histories driven through the real driver bookkeeping (fake instrument)
+    n_hist = 250 if not thorough else 6000
+    cases.append({'kind': 'hist', 'total': 100000, 'ops': [
+        ['upload', 1, [[11, 192], [12, 208]], False], ['upload', 2, [[12, 208], [13, 384]], False], ['remove', 1],
+        ['upload', 3, [[14, 192], [12, 208], [15, 400]], False], ['upload', 2, [[16, 192]], True],
+        ['upload', 2, [[16, 192]], False], ['free', 9], ['cleanup'], ['clear']]})
+    for _ in range(n_hist):
+        cases.append(_rand_hist(rng))
     return cases
+
+
+SEG_LEN = {h: [192, 208, 224, 384, 192, 400, 256, 208, 1024, 192][h % 10] for h in range(1, 31)}
+
+
+def _rand_hist(rng):
+    total = rng.choice([800, 1200, 2000, 4000, 100000])
+    npool = rng.choice([4, 8, 30])
+    ops = []
+    for _ in range(rng.randint(1, 12)):
+        r = rng.random()
+        name = rng.randint(1, 4)
+        if r < 0.55:
+            k = rng.choice([0, 1, 1, 2, 2, 3, 4])
+            hs = [rng.randint(1, npool) for _ in range(k)]
+            if rng.random() < 0.8:
+                hs = list(dict.fromkeys(hs))     # a program usually has distinct segments
+            ops.append(['upload', name, [[h, SEG_LEN[h]] for h in hs], rng.random() < 0.35])
+        elif r < 0.75:
+            ops.append(['remove', name])
+        elif r < 0.87:
+            ops.append(['free', name])
+        elif r < 0.97:
+            ops.append(['cleanup'])
+        else:
+            ops.append(['clear'])
+    return {'kind': 'hist', 'total': total, 'ops': ops}
 
 
 # ---------------------------------------------------------------------------------------------------------------------
@@ -199,6 +239,15 @@ def _arrays(case):
 def run_impl(case):
     import warnings
     import numpy as np
+    if case['kind'] == 'hist':
+        from props import c19_driver
+        try:
+            with vlib.time_limit(20):
+                return {'steps': c19_driver.run_history(case['total'], case['ops'])}
+        except vlib.Timeout:
+            return {'hang': True}
+        except Exception as e:
+            return {'crash': '%s: %s' % (type(e).__name__, e)}
     from qupulse._program.tabor import find_place_for_segments_in_memory
     hashes, refs, caps, nh, nl = _arrays(case)
     before = (hashes.copy(), refs.copy(), caps.copy())
@@ -233,9 +282,33 @@ def _zl(xs):
     return glist(gZ, xs)
 
 
+HERR = {None: 'HNone', 'Fragmentation': 'HRefused', 'NotEnoughMemory': 'HRefused', 'Refused': 'HRefused',
+        'AlreadyKnown': 'HAlreadyKnown', 'UnknownProgram': 'HUnknownProgram'}
+
+
+def _g_op(op):
+    if op[0] == 'upload':
+        return '(OUpload %s %s %s)' % (vlib.gnat(op[1]), glist(lambda s: '(%s, %s)' % (gZ(s[0]), gZ(s[1])), op[2]),
+                                       gbool(op[3]))
+    if op[0] == 'free':
+        return '(OFree %s)' % vlib.gnat(op[1])
+    if op[0] == 'remove':
+        return '(ORemove %s)' % vlib.gnat(op[1])
+    return {'cleanup': 'OCleanup', 'clear': 'OClear'}[op[0]]
+
+
+def _g_step(st):
+    progs = glist(lambda p: '(%s, %s, %s)' % (vlib.gnat(p[0]), _zl(p[1]), _zl(p[2])), st['progs'])
+    dev = glist(lambda x: vlib.gopt(gZ, x), st['dev'])
+    return ('{| ho_err := %s; ho_hashes := %s; ho_caps := %s; ho_refs := %s; ho_progs := %s; ho_dev := %s |}'
+            % (HERR.get(st['err'], 'HInternal'), _zl(st['hashes']), _zl(st['caps']), _zl(st['refs']), progs, dev))
+
+
 def to_coq(case, obs):
     if 'crash' in obs or 'hang' in obs:
         return 'CCrash'
+    if case['kind'] == 'hist':
+        return '(CHist %s %s %s)' % (gZ(case['total']), glist(_g_op, case['ops']), glist(_g_step, obs['steps']))
     if 'ret' in obs:
         w, a, i = obs['ret']
         impl = '(IRet %s %s %s)' % (_zl(w), glist(gbool, a), _zl(i))
@@ -293,18 +366,65 @@ def clauses(case, obs):
     return None
 
 
+def hist_safe(case, obs):
+    for k, st in enumerate(obs['steps']):
+        if HERR.get(st['err'], 'HInternal') == 'HInternal':
+            return 'step %d (%s): the driver raised %s' % (k, case['ops'][k][0], st['err'])
+        n = len(st['dev'])
+        for name, w2s, segs in st['progs']:
+            if len(w2s) != len(segs):
+                return 'step %d: program %d has %d slots for %d segments' % (k, name, len(w2s), len(segs))
+            for j, (q, h) in enumerate(zip(w2s, segs)):
+                if not 0 <= q < n:
+                    return 'step %d (%s): waveform %d of program %d refers to slot %d which does not exist' % (
+                        k, case['ops'][k][0], j, name, q)
+                if st['dev'][q] != h:
+                    return 'step %d (%s): slot %d of program %d holds %r instead of its segment %d' % (
+                        k, case['ops'][k][0], q, name, st['dev'][q], h)
+                if st['refs'][q] < 1:
+                    return 'step %d (%s): slot %d is used by program %d but has reference count %d' % (
+                        k, case['ops'][k][0], q, name, st['refs'][q])
+    return None
+
+
 def py_spec(case, obs):
     if 'crash' in obs or 'hang' in obs:
         return 'implementation crashed: %r' % (obs,)
+    if case['kind'] == 'hist':
+        return hist_safe(case, obs)
     return clauses(case, obs)
 
 
 def nontrivial(case, obs):
+    if case['kind'] == 'hist':
+        return 'steps' in obs and any(len(st['progs']) >= 1 and len(st['hashes']) >= 3 for st in obs['steps'])
     unknown = any(h not in case['hashes'] for h in case['new_hashes'])
     return bool(case['hashes']) and unknown and ('ret' in obs or obs.get('refused') == 'Fragmentation')
 
 
+def _hist_keys(case, obs):
+    keys = ['hist', 'hist:len:%d' % len(case['ops'])]
+    if 'steps' not in obs:
+        return keys + ['obs:crash']
+    prev = None
+    for op, st in zip(case['ops'], obs['steps']):
+        keys.append('hist:op:%s%s:%s' % (op[0], ':force' if op[0] == 'upload' and op[3] else '', st['err'] or 'ok'))
+        if prev is not None and op[0] == 'upload' and st['err'] is None:
+            if any(a != b for a, b in zip(prev['dev'], st['dev'])):
+                keys.append('hist:upload-overwrote-a-freed-slot')
+            if len(st['dev']) > len(prev['dev']):
+                keys.append('hist:upload-appended')
+            if any(r2 > r1 >= 1 for r1, r2 in zip(prev['refs'][1:], st['refs'][1:])):
+                keys.append('hist:upload-shared-a-slot')
+        if prev is not None and op[0] in ('remove', 'cleanup') and len(st['dev']) < len(prev['dev']):
+            keys.append('hist:cleanup-dropped-slots')
+        prev = st
+    return sorted(set(keys))
+
+
 def histogram_keys(case, obs):
+    if case['kind'] == 'hist':
+        return _hist_keys(case, obs)
     keys = ['place', 'slots:%s' % min(len(case['hashes']), 8), 'new:%s' % min(len(case['new_hashes']), 6),
             'dtype:%s' % case.get('dtype', 'i8')]
     if 'ret' in obs:
@@ -342,6 +462,17 @@ def shrink(case, obs, ctx):
     cur, cur_obs = case, obs
     if not py_spec(cur, cur_obs):
         return case, obs
+    if case['kind'] == 'hist':
+        changed = True
+        while changed:
+            changed = False
+            for i in range(len(cur['ops'])):
+                c = dict(cur, ops=cur['ops'][:i] + cur['ops'][i + 1:])
+                o = bad(c)
+                if o:
+                    cur, cur_obs, changed = c, o, True
+                    break
+        return cur, cur_obs
     changed = True
     while changed:
         changed = False
